@@ -67,6 +67,9 @@ def neg_imk(rheo, l, w, c, R, rho, g, dt=None):
     return -closed_love(l, R, rho, 1.0 / J, g)[0].imag
 
 
+AMBIG = {'dUdM': 0.0, 'dUdw': 0.0, 'dUdO': 0.0, 'n': 0}
+
+
 def straight_sum(c, n, spin, e, obl, use_obl, sync_identity, Mh, R, mass, g, rho, a, dt):
     """independent un-grouped sum over every (l,m,p,q) present in the real tables"""
     from TidalPy.tides.modes.mode_manipulation import find_mode_manipulators
@@ -79,6 +82,7 @@ def straight_sum(c, n, spin, e, obl, use_obl, sync_identity, Mh, R, mass, g, rho
     absH = 0.0
     minw = float('inf')
     nmodes = 0
+    AMBIG.update(dUdM=0.0, dUdw=0.0, dUdO=0.0, n=0)
     for l in range(2, c['lmax'] + 1):
         uc = get_universal_coeffs(l)
         for (m, p), f2 in F[l].items():
@@ -100,6 +104,12 @@ def straight_sum(c, n, spin, e, obl, use_obl, sync_identity, Mh, R, mass, g, rho
                 H += base * abs(om)
                 absH += abs(base * om)
                 sgn = math.copysign(1.0, om)
+                if abs(om) <= 1e-12 * (abs(ncoef * n) + abs(m_ * spin)):
+                    # the mode frequency is pure cancellation noise (exact commensurability): its sign, and whether the rheology's
+                    # zero-frequency guard applies, are not determined by the state; the torque terms it may carry widen the tolerance
+                    AMBIG['dUdM'] += abs(base * ncoef / Mh); AMBIG['dUdw'] += abs(base * (l - 2 * p_) / Mh); AMBIG['dUdO'] += abs(base * m_ / Mh); AMBIG['n'] += 1
+                    H -= base * abs(om)
+                    continue
                 dM += base * ncoef * sgn / Mh
                 dw += base * (l - 2 * p_) * sgn / Mh
                 dO += base * m_ * sgn / Mh
@@ -189,7 +199,7 @@ def eval_case(c):
             # I5 grouping
             cnt['identities_checked'] += 4
             for nm, got, ex, sc in (('heating', H, Hs, scale), ('dUdM', dM, dMs, scale_pot * c['lmax'] * 30), ('dUdw', dw, dws, scale_pot * c['lmax'] * 30), ('dUdO', dO, dOs, scale_pot * c['lmax'] * 30)):
-                if abs(got - ex) > 1e-10 * sc:
+                if abs(got - ex) > 1e-10 * sc + 1.000001 * AMBIG.get(nm, 0.0):
                     V(f'grouped-vs-straight-sum-{nm}', f'{nm}: grouped result {got!r} differs from the un-grouped straight sum {ex!r} (scale {sc:.3e}; {nmodes} modes; lmax={c["lmax"]} N={c["N"]} rheo={rheo} kind={kind})')
             # I2
             if kind == 'zero_state':
@@ -281,7 +291,10 @@ def eval_case(c):
                     # sign-dependent CPL/CTL terms legitimately jump)
                     ratio_ = spin_eff / n
                     commens = any(abs(ratio_ * m_ - round(ratio_ * m_)) < 1e-6 for m_ in range(1, 8))
-                    rate_floor = 0.0 if c10 else 1e-13 * scale / (Mh * n * a * a * max(e, 1e-3)) * (a if nm.startswith('semi') else 1.0)
+                    # rounding floor of the rates: 1e-12 of the sum of |mode terms| of the potential derivatives, propagated through the rate formulas
+                    pot_floor = 1e-12 * scale_pot * c['lmax'] * 30
+                    rate_floor = 0.0 if c10 else pot_floor * {'semi_major_axis_derivative': 2.0 * (Mh + mass) / mass / (n * a), 'eccentricity_derivative': (Mh + mass) / mass / (n * a * a * max(e, 1e-3)),
+                                                                  'spin_rate_derivative': Mh / C}[nm]
                     if not commens and abs(x3 - x0) > max(1e-9 * max(abs(x0), flo), rate_floor):
                         V('periods-vs-frequencies', f'{nm}: {x3!r} when the state is given as orbital_period/spin_period but {x0!r} for the same state given as frequencies (kind={kind} rheo={rheo})')
                     # (de/dt is a difference of two nearly equal terms: the scale is applied before the subtraction, so allow its rounding)
